@@ -53,3 +53,34 @@ func VH_C03_framing_many() {
 	}
 	vassert("C03.K2.same_arguments", same)
 }
+
+// VH_C03_restart: after any two acknowledged commands from the command table (on top of a fixed dataset with
+// points, strings, fields, a deadline, a JSON document and a channel), a restart on the log gives exactly the
+// live dataset. Real handleInputCommand / writeAOF / flushAOF, real openAppendFile / loadAOF / handlers.
+//verif:cfg use=dirmodel b_program=2_commands_from_the_gate_table(43x43) ignorego=1 maxsteps=40000000
+func VH_C03_restart() {
+	s, _ := vhShrinkServer()
+	vhWriteCmd(s, "SET", "fleet", "truck1", "FIELD", "speed", "90", "POINT", "33", "-115")
+	vhWriteCmd(s, "SET", "fleet", "truck2", "STRING", "hello")
+	vhWriteCmd(s, "SET", "fleet", "truck4", "EX", "100", "POINT", "3", "4")
+	vhWriteCmd(s, "JSET", "user", "u1", "name", "Tom")
+	vhWriteCmd(s, "SETCHAN", "ch1", "NEARBY", "fleet", "FENCE", "POINT", "33", "-115", "1000")
+	table := vhCommandTable()
+	c1 := table[vchoose(len(table))]
+	c2 := table[vchoose(len(table))]
+	vhRunCmd(s, c1.args)
+	vhRunCmd(s, c2.args)
+	s.flushAOF(false)
+	live := vhSnapshot(s)
+	rec, err := vhRestartOn(s.opts.AppendFileName)
+	vobs("program", c1.args[0], c2.args[0], len(live))
+	vassert("C03.restart_loads", err == nil)
+	vassert("C03.restart_equals_acknowledged_state", rec == live)
+	vhCleanupShrink()
+}
+
+func vhRunCmd(s *Server, args []string) {
+	client := &Client{}
+	msg := &Message{Args: append([]string(nil), args...), ConnType: RESP, OutputType: RESP}
+	s.handleInputCommand(client, msg)
+}
